@@ -17,6 +17,7 @@ import (
 	"fmt"
 	"math/rand"
 	"path/filepath"
+	"runtime"
 	"sort"
 	"strings"
 	"sync"
@@ -269,6 +270,8 @@ type vrWorld struct {
 	locked  map[types.FileContractID]bool
 	nextSlot int
 
+	sess     int // > 0: the session on whose behalf manager calls are recorded (sessions cases)
+	nextSess int
 	lastTrim bool
 	monitors bool // off in the undisciplined (correspondence-only) cases
 	accepted int
@@ -426,6 +429,16 @@ func vrCall(f func() error) (cls string, err error, panicked any) {
 	return vrClass(err), err, nil
 }
 
+// step records one operation with what the implementation did.  In a sessions case (sess > 0: the
+// history is recorded for coq/Roots/Sess.v) a manager call is the call of the session that makes it.
+func (w *vrWorld) step(op, obs string) {
+	if w.sess > 0 {
+		w.em.Step(fmt.Sprintf("SOp %d (%s)", w.sess, op), "SO ("+obs+")")
+		return
+	}
+	w.em.Step(op, obs)
+}
+
 func (w *vrWorld) hit(sig, detail string) {
 	if w.monitors {
 		w.em.Monitor(sig, detail)
@@ -489,7 +502,7 @@ func (w *vrWorld) look(id types.FileContractID, v2 bool) vrSnapEntry {
 	if v2 {
 		opn = "Look2"
 	}
-	w.em.Step(fmt.Sprintf("%s %d", opn, w.cN(id)),
+	w.step(fmt.Sprintf("%s %d", opn, w.cN(id)),
 		fmt.Sprintf("OLook %s %s %s %d %d %d %s %s", coqBool(e.found), w.coqRoots(e.db), w.coqRoots(e.cache),
 			e.rev, e.fsize, w.hN(e.mroot), w.coqOptCid(e.to), w.coqOptCid(e.from)))
 	if e.found && !w.supers[id] {
@@ -554,7 +567,7 @@ func (w *vrWorld) storeSec(r types.Hash256) {
 		w.t.Fatal(err)
 	}
 	w.stored[r] = true
-	w.em.Step(fmt.Sprintf("StoreSec %d", w.rN(r)), "ORes (Ok tt)")
+	w.step(fmt.Sprintf("StoreSec %d", w.rN(r)), "ORes (Ok tt)")
 	w.em.Count("op:StoreSec")
 }
 
@@ -576,7 +589,7 @@ func (w *vrWorld) prune() {
 	if err := w.store.PruneSectors(context.Background(), time.Now().Add(time.Hour)); err != nil {
 		w.t.Fatal(err)
 	}
-	w.em.Step("Prune", "ORes (Ok tt)")
+	w.step("Prune", "ORes (Ok tt)")
 	w.em.Count("op:Prune")
 	for _, h := range held {
 		if _, err := w.store.SectorLocation(h.r); err != nil {
@@ -591,7 +604,7 @@ func (w *vrWorld) located(r types.Hash256) bool {
 	if err != nil && !errors.Is(err, storage.ErrSectorNotFound) {
 		w.t.Fatal(err)
 	}
-	w.em.Step(fmt.Sprintf("Located %d", w.rN(r)), "OBool "+coqBool(ok))
+	w.step(fmt.Sprintf("Located %d", w.rN(r)), "OBool "+coqBool(ok))
 	return ok
 }
 
@@ -601,12 +614,12 @@ func (w *vrWorld) countSectors() {
 	if err != nil {
 		w.t.Fatal(err)
 	}
-	w.em.Step("CountSectors", fmt.Sprintf("ONum %d", m.Storage.ContractSectors))
+	w.step("CountSectors", fmt.Sprintf("ONum %d", m.Storage.ContractSectors))
 }
 
 func (w *vrWorld) setHeight(h uint64) {
 	w.chain.st.Index.Height = h
-	w.em.Step(fmt.Sprintf("SetHeight %d", h), "ORes (Ok tt)")
+	w.step(fmt.Sprintf("SetHeight %d", h), "ORes (Ok tt)")
 	w.em.Count("op:SetHeight")
 }
 
@@ -625,7 +638,7 @@ func (w *vrWorld) restart() {
 	w.newManager()
 	w.upd = map[int]*vrUpd{}
 	w.locked = map[types.FileContractID]bool{}
-	w.em.Step("Restart", "ORes (Ok tt)")
+	w.step("Restart", "ORes (Ok tt)")
 	w.em.Count("op:Restart")
 	for id, l := range before {
 		if got := w.cm.SectorRoots(id); !vrEq(got, l) {
@@ -656,7 +669,7 @@ func (w *vrWorld) form1(id types.FileContractID, ws uint64) *vrC1 {
 	uc := types.UnlockConditions{PublicKeys: []types.UnlockKey{rk.PublicKey().UnlockKey(), hk.PublicKey().UnlockKey()}, SignaturesRequired: 2}
 	sr := w.newV1Rev(id, uc, 1, 0, types.Hash256{}, ws)
 	cls, err, _ := vrCall(func() error { return w.cm.AddContract(sr, nil, types.ZeroCurrency, contracts.Usage{}) })
-	w.em.Step(fmt.Sprintf("Form1 %d 1 0 0 %d", w.cN(id), ws), "ORes ("+cls+")")
+	w.step(fmt.Sprintf("Form1 %d 1 0 0 %d", w.cN(id), ws), "ORes ("+cls+")")
 	w.em.Count("op:Form1:" + cls)
 	if err != nil {
 		return nil
@@ -672,7 +685,7 @@ func (w *vrWorld) lock1(id types.FileContractID) bool {
 	ctx, cancel := context.WithTimeout(context.Background(), 3*time.Millisecond)
 	defer cancel()
 	cls, err, _ := vrCall(func() error { _, err := w.cm.Lock(ctx, id); return err })
-	w.em.Step(fmt.Sprintf("Lock1 %d", w.cN(id)), "ORes ("+cls+")")
+	w.step(fmt.Sprintf("Lock1 %d", w.cN(id)), "ORes ("+cls+")")
 	w.em.Count("op:Lock1:" + cls)
 	if err == nil {
 		w.locked[id] = true
@@ -685,7 +698,7 @@ func (w *vrWorld) lock1(id types.FileContractID) bool {
 
 func (w *vrWorld) unlock1(id types.FileContractID) {
 	cls, _, _ := vrCall(func() error { w.cm.Unlock(id); return nil })
-	w.em.Step(fmt.Sprintf("Unlock1 %d", w.cN(id)), "ORes ("+cls+")")
+	w.step(fmt.Sprintf("Unlock1 %d", w.cN(id)), "ORes ("+cls+")")
 	w.em.Count("op:Unlock1")
 	delete(w.locked, id)
 }
@@ -698,7 +711,7 @@ func (w *vrWorld) open1(id types.FileContractID) int {
 	slot := w.nextSlot
 	w.nextSlot++
 	w.upd[slot] = &vrUpd{id: id, u: u, list: vrCopy(w.ref[id])}
-	w.em.Step(fmt.Sprintf("Open1 %d %d", slot, w.cN(id)), "ORes (Ok tt)")
+	w.step(fmt.Sprintf("Open1 %d %d", slot, w.cN(id)), "ORes (Ok tt)")
 	w.em.Count("op:Open1")
 	return slot
 }
@@ -720,7 +733,7 @@ func (w *vrWorld) act(slot int, a contracts.SectorChange) bool {
 		}
 	})
 	cur := x.u.SectorRoots()
-	w.em.Step(fmt.Sprintf("Act %d (%s)", slot, vrCoqAction(w, a)), fmt.Sprintf("OAct (%s) %s", cls, w.coqRoots(cur)))
+	w.step(fmt.Sprintf("Act %d (%s)", slot, vrCoqAction(w, a)), fmt.Sprintf("OAct (%s) %s", cls, w.coqRoots(cur)))
 	w.em.Count(fmt.Sprintf("act:%s:%s", a.Action, cls))
 	if err == nil {
 		// reference semantics of an accepted modification
@@ -766,7 +779,7 @@ func (w *vrWorld) commit1(slot int, faultAt int) (ok bool, fired bool) {
 	}
 	cls, err, pv := vrCall(func() error { return x.u.Commit(next, contracts.Usage{}) })
 	fired, seen := vrDisarm()
-	w.em.Step(fmt.Sprintf("Commit1 %d %d %d %d %s", slot, next.Revision.RevisionNumber, next.Revision.Filesize, w.hN(next.Revision.FileMerkleRoot), vrCoqFault(fired)),
+	w.step(fmt.Sprintf("Commit1 %d %d %d %d %s", slot, next.Revision.RevisionNumber, next.Revision.Filesize, w.hN(next.Revision.FileMerkleRoot), vrCoqFault(fired)),
 		"ORes ("+cls+")")
 	w.em.Count("op:Commit1:" + cls)
 	if faultAt >= 0 {
@@ -795,7 +808,7 @@ func (w *vrWorld) commit1(slot int, faultAt int) (ok bool, fired bool) {
 func (w *vrWorld) close1(slot int) {
 	w.upd[slot].u.Close()
 	delete(w.upd, slot)
-	w.em.Step(fmt.Sprintf("Close1 %d", slot), "ORes (Ok tt)")
+	w.step(fmt.Sprintf("Close1 %d", slot), "ORes (Ok tt)")
 	w.em.Count("op:Close1")
 }
 
@@ -848,7 +861,7 @@ func (w *vrWorld) renew1(old types.FileContractID, bad vrRenewBad, faultAt int) 
 		return w.cm.RenewContract(renewal, clearing, nil, types.ZeroCurrency, contracts.Usage{}, contracts.Usage{})
 	})
 	fired, seen := vrDisarm()
-	w.em.Step(fmt.Sprintf("Renew1 %d %d %d %d %d %d %d %d %d %d %s", w.cN(old), w.cN(newID),
+	w.step(fmt.Sprintf("Renew1 %d %d %d %d %d %d %d %d %d %d %s", w.cN(old), w.cN(newID),
 		clearing.Revision.RevisionNumber, clearing.Revision.Filesize, w.hN(clearing.Revision.FileMerkleRoot),
 		renewal.Revision.RevisionNumber, renewal.Revision.Filesize, w.hN(renewal.Revision.FileMerkleRoot), nws, w.hN(mold), vrCoqFault(fired)),
 		"ORes ("+cls+")")
@@ -943,7 +956,7 @@ func (w *vrWorld) form2(proofHeight uint64) *vrC2 {
 	cls, err, _ := vrCall(func() error {
 		return w.cm.AddV2Contract(rhp4.TransactionSet{Transactions: []types.V2Transaction{txn}}, proto4.Usage{})
 	})
-	w.em.Step(fmt.Sprintf("Form2 %d %s", w.cN(id), w.coqRv2(fc)), "ORes ("+cls+")")
+	w.step(fmt.Sprintf("Form2 %d %s", w.cN(id), w.coqRv2(fc)), "ORes ("+cls+")")
 	w.em.Count("op:Form2:" + cls)
 	if err != nil {
 		return nil
@@ -1015,7 +1028,7 @@ func (w *vrWorld) revise2(id types.FileContractID, newRoots []types.Hash256, bad
 	}
 	cls, err, pv := vrCall(func() error { return w.cm.ReviseV2Contract(id, fc, vrCopy(newRoots), proto4.Usage{}) })
 	fired, seen := vrDisarm()
-	w.em.Step(fmt.Sprintf("Revise2 %d %s %s %d %s %s %s", w.cN(id), w.coqRv2(fc), w.coqRoots(newRoots), w.hN(rhp2.MetaRoot(newRoots)),
+	w.step(fmt.Sprintf("Revise2 %d %s %s %d %s %s %s", w.cN(id), w.coqRv2(fc), w.coqRoots(newRoots), w.hN(rhp2.MetaRoot(newRoots)),
 		coqBool(rsig), coqBool(hsig), vrCoqFault(fired)), "ORes ("+cls+")")
 	w.em.Count(fmt.Sprintf("op:Revise2:variant=%d:%s", bad, cls))
 	if faultAt >= 0 {
@@ -1104,7 +1117,7 @@ func (w *vrWorld) renew2(old types.FileContractID, refresh bool, bad vrRenew2Bad
 	}
 	cls, err, pv := vrCall(func() error { return w.cm.RenewV2Contract(set, proto4.Usage{}) })
 	fired, seen := vrDisarm()
-	w.em.Step(fmt.Sprintf("Renew2 %d %d %s %d %s %s", w.cN(parent), w.cN(newID), w.coqRv2(fc), w.hN(mold), coqBool(wf), vrCoqFault(fired)),
+	w.step(fmt.Sprintf("Renew2 %d %d %s %d %s %s", w.cN(parent), w.cN(newID), w.coqRv2(fc), w.hN(mold), coqBool(wf), vrCoqFault(fired)),
 		"ORes ("+cls+")")
 	kind := "renew"
 	if refresh {
@@ -1185,7 +1198,17 @@ func (w *vrWorld) lock2Waiting(id types.FileContractID, during func()) {
 		})
 		got <- res{st, cls, err}
 	}()
-	time.Sleep(40 * time.Millisecond) // the waiter is blocked by now (if not, it simply locks afterwards)
+	// the waiter is registered in the manager's lock table before the holder goes on
+	for deadline, i := time.Now().Add(20*time.Second), 0; w.cm.VerifC03LockWaiters(id) < 1; i++ {
+		if time.Now().After(deadline) {
+			w.t.Fatalf("lock2Waiting: the second caller of contract %d never showed up in the lock table", w.cN(id))
+		}
+		if i < 200 {
+			runtime.Gosched()
+		} else {
+			time.Sleep(50 * time.Microsecond)
+		}
+	}
 	during()
 	unlock()
 	r := <-got
@@ -1198,7 +1221,7 @@ func (w *vrWorld) noteLock2(id types.FileContractID, st rhp4.RevisionState, cls 
 	if err == nil {
 		obs = fmt.Sprintf("OLock2 (Ok (%d, %s, %s, %s))", st.Revision.RevisionNumber, coqBool(st.Renewed), coqBool(st.Revisable), w.coqRoots(st.Roots))
 	}
-	w.em.Step(fmt.Sprintf("Lock2 %d", w.cN(id)), obs)
+	w.step(fmt.Sprintf("Lock2 %d", w.cN(id)), obs)
 	w.em.Count("op:Lock2:" + cls)
 	if err == nil {
 		if w.supers[id] && (!st.Renewed || st.Revisable) {
